@@ -314,6 +314,8 @@ func init() {
 	})
 	reg("internal/stringslite.Index", intrinsics["strings.Index"])
 	reg("internal/stringslite.IndexByte", intrinsics["internal/bytealg.IndexByteString"])
+	reg("internal/stringslite.Clone", func(ex *Exec, fn *ssa.Function, a []Value) Value { return a[0] })
+	reg("strings.Clone", func(ex *Exec, fn *ssa.Function, a []Value) Value { return a[0] })
 	// strings.Builder
 	sb := func(ex *Exec, p Value) BSlice {
 		if v, ok := ex.env.side[p.(Ptr).cell].(BSlice); ok {
